@@ -92,6 +92,14 @@ func builder(off int64) avro.CodecBuildFunc {
 
 var custT = reflect.TypeOf(Cust(0))
 
+type Cust2 int64
+
+type Holder2 struct {
+	C Cust2 `json:"c"`
+}
+
+var cust2T = reflect.TypeOf(Cust2(0))
+
 const holderSchema = `{"type":"record","name":"HolderC","fields":[{"name":"c","type":"long"}]}`
 
 func buildAndDecode() Obs {
@@ -421,6 +429,47 @@ func Scenarios() []Scenario {
 		},
 		Body:  func(st *State, tid int) Obs { return decodeBody(st, tid, false) },
 		Check: allOK})
+	// S8: Register(T1) ∥ Register(T2) ∥ build: afterwards BOTH registrations must be in effect
+	out = append(out, Scenario{Name: "S8 Register(T1) || Register(T2) || Codec+decode, then both must be in effect", Threads: 3,
+		Setup: func(env *Env) *State { avro.Register(custT, builder(1000)); return &State{Env: env} },
+		Body: func(st *State, tid int) Obs {
+			switch tid {
+			case 0:
+				avro.Register(custT, builder(2000))
+				return Obs{S: "ok"}
+			case 1:
+				avro.Register(cust2T, builder(3000))
+				avro.RegisterSchema(cust2T, avro.Schema{Type: "long"})
+				return Obs{S: "ok"}
+			}
+			if e := oneOf(buildAndDecode(), "1005", "2005"); e != "" {
+				return Obs{S: "DIFF " + e}
+			}
+			return Obs{S: "ok"}
+		},
+		Check: func(st *State, obs []Obs) string {
+			if e := allOK(st, obs); e != "" {
+				return e
+			}
+			// sequentially, after both registrations have returned, both are visible
+			if e := oneOf(buildAndDecode(), "2005"); e != "" {
+				return "after all threads finished, Cust: " + e
+			}
+			s, _ := avro.SchemaFromString(`{"type":"record","name":"H2","fields":[{"name":"c","type":"long"}]}`)
+			codec, err := s.Codec(Holder2{})
+			if err != nil {
+				return "after all threads finished, Cust2: " + err.Error()
+			}
+			var h Holder2
+			if err := codec.Read(avro.NewReadBuf([]byte{10}), unsafe.Pointer(&h)); err != nil || int64(h.C) != 3005 {
+				return fmt.Sprintf("after all threads finished the registration for Cust2 is not in effect: decoded %d err=%v (a lost update)", int64(h.C), err)
+			}
+			sc, err := avro.SchemaForType(Holder2{})
+			if err != nil || len(sc.Object.Fields) != 1 || sc.Object.Fields[0].Type.Type != "long" {
+				return fmt.Sprintf("after all threads finished the schema registration for Cust2 is not in effect: %v err=%v", sc, err)
+			}
+			return ""
+		}})
 	// S7: mixed
 	out = append(out, Scenario{Name: "S7 mixed: Register || shared decode with new zone || build+decode", Threads: 3,
 		Setup: func(env *Env) *State {
